@@ -29,6 +29,27 @@ CHECKS = {
 "C15": ("fault_enumeration", "deterministic simulation: enumerated + seeded frame histories from a raw client against the real server transport tasks on a paused seeded tokio runtime",
         "Every HEL/OPN/MSG/CLO history of length <=4 (quick) / <=5 (thorough) plus seeded longer histories with segmentation and pauses; oracle: protocol state machine over what appears on the wire.",
         "In-memory duplex stream through the verif::net seam instead of a TCP socket; policy None.", "7/C15"),
+"C21": ("exploration", "deterministic simulation: seeded histories (writes, timer ticks, publish bursts/starvation, acks, lifecycle churn) against the real server tasks on a paused tokio runtime; reference model of pairing, ordering and exactly-once delivery",
+        "Real reader/writer/timer tasks and services; oracle: every publish response answers the oldest queued request exactly once, sequence numbers strictly increase, per-item delivered values equal the written values (no duplicate, no reorder, complete after a fault-free drain in the sound regime).",
+        "One connection, one session, policy None; completeness only claimed for items that sample every timer tick and live to the end of the drain.", "7/C21"),
+"C22": ("fault_enumeration", "deterministic simulation: enumerated keep-alive/lifetime/publishing/request-availability grid on virtual time plus seeded variations; interval-count oracle",
+        "Grid keep-alive 1..12 x lifetime {3k,3k+1,3k+5,40} x enabled/disabled x requests {always, never with probes before/after the lifetime, every 2nd/3rd interval}; oracle in whole publishing intervals with one interval of slack.",
+        "Timer 100 ms on a paused tokio clock; expiry is observed by offering one publish request at the probe point.", "7/C22"),
+"C24": ("exploration", "deterministic simulation: seeded sample/resize histories through the real services and timer; bounded-queue reference model per notification",
+        "Items sampled every tick with publishing every 2-10 ticks, queue sizes 1..12, both discard policies, ModifyMonitoredItems growing/shrinking non-empty queues; oracle: size bound, order, surviving entries, overflow info bit, modify never fails.",
+        "Publish requests always available (so that C21's clauses do not interfere); one write per tick.", "7/C24"),
+"C25": ("exploration", "deterministic simulation: seeded value/status/timestamp histories set by an application actor; last-reported reference model per filter",
+        "Trigger x deadband {none, absolute, percent} x value; oracle: reported sequence equals the model's; an accepted filter must be able to report a large change.",
+        "Double variables without EURange; one direct write per tick.", "7/C25"),
+"C26": ("exploration", "deterministic simulation with clock faults: request-header timestamps (past/future/null/min/max), wall-clock jumps +-(1 ms..10 y), off-phase sleeps; no-panic and timeout-direction oracle",
+        "Histories as in C21 with the clock fault kinds enabled; oracle: no panic in any server task (panic hook + connection liveness) and BadTimeout only after the timeout elapsed since the request timestamp.",
+        "Wall clock through the verif::clock seam following the paused tokio clock plus injected skew.", "7/C26"),
+"C27": ("exploration", "deterministic simulation: seeded histories with 2-4 subscriptions of distinct priorities all ready and scarce publish requests; per-server-pass order oracle",
+        "Oracle: within one server pass (same response timestamp) notifications are in descending priority and the timer pass starts with the highest-priority subscription that has undelivered data.",
+        "Readiness is derived from the harness's own writes; clock-jump runs are excluded.", "7/C27"),
+"C40": ("exploration", "deterministic simulation: seeded publish/ack/republish/delete histories; retained-set reference model",
+        "Acknowledgements {valid, duplicate, unknown sequence, unknown subscription}, Republish {last, first, acknowledged, unknown}, subscription deletion; oracle: republished == original, unavailable after a Good ack, unknown ack -> BadSequenceNumberUnknown, retained while well below the retransmission capacity.",
+        "Availability only asserted while the number of unconfirmed messages stays below 3 x subscriptions (capacity is 4 x).", "7/C40"),
 }
 
 def main():
